@@ -507,7 +507,6 @@ def run(ctx):
             descr = dict(transformation=name, params=params, numvar=N, clauses=F, style=style)
             cases.append(('invalid-arguments', descr, name, params, N, F, impl_thunk(S, G, name, params),
                           (idx, name, str(params)), True))
-    # the input formula must not be modified by a transformation (checked on the last formula built)
     run_cases(ctx, cases)
 
     # ---- stream 2: medium formulas ----
@@ -538,6 +537,9 @@ def run(ctx):
 
     # ---- stream 3: command line ----
     run_cli(ctx, quick)
+    # a site for which a failing input was found needs no extra 'model differs' line
+    bad = {v['site'] for v in ctx.violations if v['kind'] == 'counterexample'}
+    ctx.violations = [v for v in ctx.violations if not (v['kind'] == 'correspondence' and v['site'] in bad)]
     ctx.exhaustive = False
 
 
